@@ -4,6 +4,7 @@ import H3.Model.Config
 import H3.Spec.Settings
 import H3.Model.UniAccept
 import H3.Model.WriteBuf
+import H3.Model.Control
 /-! Driver engine `set` (C13).  Case lines and output formats: see `harness/src/e_c13.rs`.
 
     Grease: h3 draws the grease identifier at random.  A `set cfg` line with grease on carries
@@ -25,6 +26,7 @@ def codeName (c : Nat) : String :=
   else if c == CODE_H3_INTERNAL_ERROR then "H3_INTERNAL_ERROR"
   else if c == CODE_H3_FRAME_UNEXPECTED then "H3_FRAME_UNEXPECTED"
   else if c == CODE_H3_FRAME_ERROR then "H3_FRAME_ERROR"
+  else if c == CODE_H3_STREAM_CREATION_ERROR then "H3_STREAM_CREATION_ERROR"
   else s!"code:{c}"
 
 def entStr (ps : List (Nat × Nat)) : String :=
@@ -154,10 +156,9 @@ def specRecLong (ps : List (Nat × Nat)) : String :=
   | [a, b, c, d, e] => s!"mfs {a} wt {b} ec {c} dg {d} wts {e}"
   | _ => "?"
 
-/-- short record, or `none` when a flag carries a value other than 0/1 -/
-def specRecShort? (ps : List (Nat × Nat)) : Option String :=
-  let fs := specFields ps
-  if fs.contains "*" then none else some ("/".intercalate fs)
+/-- short record; a field the specification has no demand on (ENABLE_WEBTRANSPORT with a value above 1) is an
+    in-token wildcard: `5/*/0/0/0` -/
+def specRecShort (ps : List (Nat × Nat)) : String := "/".intercalate (specFields ps)
 
 def defaultShort : String := s!"{H3.Spec.Settings.unlimited}/0/0/0/0"
 
@@ -187,6 +188,32 @@ def insertAllOps : Settings → List (Nat × Nat) → Settings × List String
     | .ok s' => let (sf, l) := insertAllOps s' r; (sf, "ok" :: l)
     | .error e => let (sf, l) := insertAllOps s r; (sf, kind e :: l)
 
+/-- specification of `Settings::insert` (the property's anchors: "at most 8 (id, value) entries"; "lists no
+    identifier twice"; identifiers and values are varints): the pairs taken, in order -/
+def specInsert : List (Nat × Nat) → List (Nat × Nat) → List (Nat × Nat)
+  | [], acc => acc
+  | (id, v) :: r, acc =>
+    if acc.length < 8 && id < 2^62 && v < 2^62 && !(acc.any (fun p => p.1 == id)) then specInsert r (acc ++ [(id, v)])
+    else specInsert r acc
+
+/-- `ok` for a pair that is taken, `*` (any refusal) for one that is not -/
+def specInsertRes : List (Nat × Nat) → List (Nat × Nat) → List String
+  | [], _ => []
+  | (id, v) :: r, acc =>
+    if acc.length < 8 && id < 2^62 && v < 2^62 && !(acc.any (fun p => p.1 == id)) then "ok" :: specInsertRes r (acc ++ [(id, v)])
+    else "*" :: specInsertRes r acc
+
+/-- the control stream header as the RFC reader sees it, one token: `<id>:<val>,…` sorted, `-`, or `malformed` -/
+def viewTok (b : Bytes) : String :=
+  let r : Option (List (Nat × Nat)) := do
+    let (ty, r) ← rfcDecode b
+    let (ft, r) ← rfcDecode r
+    let (len, r) ← rfcDecode r
+    if ty ≠ 0 ∨ ft ≠ 4 ∨ len ≠ r.length then none else H3.Spec.Settings.parse r
+  match r with
+  | none => "malformed"
+  | some ps => entStr (sortPairs ps)
+
 def encCase (ps : List (Nat × Nat)) : String :=
   let (s, res) := insertAllOps empty ps
   let g0 := match get s 0 with
@@ -201,13 +228,24 @@ def encCase (ps : List (Nat × Nat)) : String :=
         | some (.ok _, _) => "other"
         | some (.error e, _) => s!"err:{kind e}"
         | none => "frame-error"
-      s!"hdr {toHex b} rt {rt}"
-  -- specification: identifiers an endpoint understands, each once, encodable, come back as sent
-  let okIds := ps.all (fun p => H3.Spec.Settings.known.contains p.1 && p.2 < 2^62)
-    && (ps.map (·.1)).eraseDups.length == ps.length
-  -- (only for sizes connection setup can produce: at most 39 payload bytes)
-  let sz := (ps.map (fun p => Varint.size p.1 + Varint.size p.2)).sum
-  let sp := if okIds && sz ≤ 39 then s!"ins * ent {entStr ps} get0 * hdr * rt ent {entStr ps}" else "?"
+      s!"hdr {toHex b} view {viewTok b} rt {rt}"
+  -- specification (never `?`): which inserts a list of at most 8 distinct varint-sized pairs takes (the property's
+  -- "fixed-capacity settings list", "lists no identifier twice"), and that the bytes written — read back by the
+  -- RFC reader, which shares nothing with h3 — are `00 04 len` + exactly the pairs taken.  What h3's own decoder
+  -- makes of them (`rt`) follows the receive rules.  A header longer than the 64-byte array is outside what the
+  -- builders can produce (at most 42 bytes, `C13_sent_settings`): the panic is recorded, not judged.
+  let acc := specInsert ps []
+  let insS := if ps.isEmpty then "-" else ",".intercalate (specInsertRes ps [])
+  let sz := (acc.map (fun p => Varint.size p.1 + Varint.size p.2)).sum
+  let total := 1 + 1 + Varint.size sz + sz
+  let sp :=
+    if total > 64 then s!"ins {insS} ent {entStr acc} get0 * hdr **"
+    else
+      let rt := match H3.Spec.Settings.demand (acc.flatMap (fun p => Varint.encode p.1 ++ Varint.encode p.2)) with
+        | .anyError => "err:*"
+        | .settingsError => "err:*"
+        | _ => s!"ent {entStr (acc.filter (fun p => H3.Spec.Settings.known.contains p.1))}"
+      s!"ins {insS} ent {entStr acc} get0 * hdr * view {entStr (sortPairs acc)} rt {rt}"
   s!"{ins} {hdr} ## {sp}"
 
 /-- `set cfgw`: at most this many grants (harness: `CFGW_ROUNDS`) -/
@@ -284,14 +322,70 @@ def tailStr : Option Nat → String
   | some c => s!"closed {codeName c}"
 
 open H3.Spec.Settings in
-/-- specification for one received payload at connection level: short record after it and
-    whether the connection must be closed; `none` = no single expected line (alternatives) -/
-def applySpec? (p : Bytes) : Option (String × String) :=
+/-- specification for one received payload at connection level: the alternatives it allows, each a short record
+    after the payload (fields without a demand are in-token wildcards) and whether the connection must be closed.
+    Never empty: every line is judged. -/
+def applyAlts (p : Bytes) : List (String × String) :=
   match demand p with
-  | .anyError => some (defaultShort, "closed *")
-  | .settingsError => some (defaultShort, "closed H3_SETTINGS_ERROR")
-  | .applyOrError _ => none
-  | .apply ps => (specRecShort? ps).map (fun r => (r, "open"))
+  | .anyError => [(defaultShort, "closed *")]
+  | .settingsError => [(defaultShort, "closed H3_SETTINGS_ERROR")]
+  | .applyOrError ps => [(specRecShort ps, "open"), (defaultShort, "closed H3_SETTINGS_ERROR")]
+  | .apply ps =>
+    if (specFields ps).contains "*" then [(specRecShort ps, "open"), (defaultShort, "closed H3_SETTINGS_ERROR")]
+    else [(specRecShort ps, "open")]
+
+def alts (l : List String) : String := " || ".intercalate l
+
+/-- the local configuration of a `set apply*` line: the `set cfg` keys without seed / gid; grease is OFF unless the
+    line says `grease=1` (no byte of the own control stream is printed, so the draw does not matter) -/
+def localCfg (role : String) (rest : List String) : Option Config :=
+  match parseCfg rest {} with
+  | none => none
+  | some l =>
+    if l.seed.isSome || l.gid.isSome then none
+    else if role == "client" && (l.wt.isSome || l.wts.isSome) then none
+    else some { grease := l.grease.getD false,
+                settings := { mfs := l.mfs.getD Record.default.mfs, wt := l.wt.getD Record.default.wt,
+                              ec := l.ec.getD Record.default.ec, dg := l.dg.getD Record.default.dg,
+                              wts := l.wts.getD Record.default.wts } }
+
+/-- does `build` succeed with this configuration (model: `Config.setup`)? -/
+def builds (c : Config) : Bool :=
+  match setup c 0 with
+  | .sent _ => true
+  | _ => false
+
+/-- `set applyq`: one stream opened before the control stream, as `poll_accept_recv` finds it.  Header incomplete
+    (`poll_type` = `Pending`) ⇒ `.header`; complete, nothing behind it, and a QPACK encoder / decoder stream, a
+    WebTransport stream with its session id or an unknown / grease type ⇒ `.foreign` with what C04's model of the
+    accept arms (`H3.Control.acceptKind`) does with it; anything else (control, push, bytes behind the header) is
+    outside this family: `none`. -/
+def preStream (cfg : H3.Control.Cfg) (k : H3.Control.Conn) (b : Bytes) : Option (Waiting × H3.Control.Conn) :=
+  if headerWaits b then some (.header, k) else
+  match H3.UniAccept.resolve 4 {} [.chunk b] with
+  | .resolved s _ =>
+    if !s.buf.isEmpty then none else
+    match H3.UniAccept.intoStream s with
+    | some .control => none
+    | some .push => none
+    | some kind =>
+      let r := H3.Control.acceptKind cfg k kind
+      some (.foreign r.err, r.conn)
+    | none => none
+  | _ => none
+
+def preStreams (cfg : H3.Control.Cfg) : H3.Control.Conn → List Bytes → Option (List Waiting)
+  | _, [] => some []
+  | k, b :: r =>
+    match preStream cfg k b with
+    | none => none
+    | some (w, k') => (preStreams cfg k' r).map (w :: ·)
+
+/-- specification side of the streams in front: RFC 9204 §4.2 — a second QPACK encoder (type 0x02) or decoder
+    (0x03) stream is H3_STREAM_CREATION_ERROR (C04's clause; C13 only needs to know that its own demand ends there) -/
+def secondQpack (pres : List Bytes) : Bool :=
+  let tys := pres.filterMap (fun b => (rfcDecode b).map (·.1))
+  (tys.filter (· == 2)).length ≥ 2 || (tys.filter (· == 3)).length ≥ 2
 
 def handle : List String → String
   | "set" :: "cfg" :: role :: rest =>
@@ -319,56 +413,72 @@ def handle : List String → String
         let c1 := c0.set (fromSettings s1)
         let c2 := c1.set (fromSettings s2)
         let m := s!"init={recShort c0.get} first={recShort c1.get} second={recShort c2.get}"
-        let sp := match H3.Spec.Settings.demand p1 with
-          | .apply ps => match specRecShort? ps with
-            | some r => s!"init={defaultShort} first={r} second={r}"
-            | none => "?"
-          | _ => "?"
+        let a1 := applyAlts p1
+        let a2 := applyAlts p2
+        let okAlts := (a1.filter (·.2 == "open")).filter (fun _ => a2.any (·.2 == "open"))
+        let bad := a1.any (·.2 != "open") || a2.any (·.2 != "open")
+        let sp := alts (okAlts.map (fun (r, _) => s!"init={defaultShort} first={r} second={r}")
+          ++ (if bad then ["bad-case"] else []))
         m ++ " ## " ++ sp
-      | _, _ => "bad-case"
+      | _, _ =>
+        let bad := (applyAlts p1).any (·.2 != "open") || (applyAlts p2).any (·.2 != "open")
+        "bad-case ## " ++ (if bad then "bad-case" else "init=* first=* second=*")
     | _, _ => "bad-op"
-  | ["set", "apply", role, h, cut] =>
-    match parseHex h, cut.toNat? with
-    | some p, some cut =>
-      if role != "server" && role != "client" then "bad-op" else
-      let total := 1 + (settingsFrame p).length
-      let two := 0 < cut && cut < total
-      let (c, code) := receive Cell.new p
-      let after := recShort c.get
-      let mid := if two then recShort Cell.new.get else after
-      let m := s!"before={recShort Cell.new.get} mid={mid} after={after} {tailStr code}"
-      let sp := match applySpec? p with
-        | none => "?"
-        | some (r, t) => s!"before={defaultShort} mid={if two then defaultShort else r} after={r} {t}"
-      m ++ " ## " ++ sp
-    | _, _ => "bad-op"
-  | ["set", "applyq", role, h, cut, pre] =>
-    match parseHex h, cut.toNat?, (pre.splitOn ",").mapM parseHex with
-    | some p, some cut, some pres =>
+  | "set" :: "apply" :: role :: h :: cut :: rest =>
+    match parseHex h, cut.toNat?, localCfg role rest with
+    | some p, some cut, some cfg =>
       if role != "server" && role != "client" then "bad-op"
-      else if pres.isEmpty || pres.length > 8 || !pres.all headerWaits then "bad-op" else
+      else if !builds cfg then "setup-failed ## setup-failed" else
       let total := 1 + (settingsFrame p).length
       let two := 0 < cut && cut < total
-      -- the streams as `poll_accept_recv` finds them: the waiting ones, then the control stream
-      let ws : List Waiting := pres.map (fun _ => Waiting.header) ++ [.control p]
-      let (c, code) := receiveScan Cell.new ws
-      let after := recShort c.get
+      -- the connection carries its local configuration; what is received does not depend on it
+      -- (`C13_received_settings_independent_of_local_config`)
+      let (k, code) := Conn.receive ⟨cfg, Cell.new⟩ p
+      let after := recShort k.cell.get
       let mid := if two then recShort Cell.new.get else after
       let m := s!"before={recShort Cell.new.get} mid={mid} after={after} {tailStr code}"
-      let sp := match applySpec? p with
-        | none => "?"
-        | some (r, t) => s!"before={defaultShort} mid={if two then defaultShort else r} after={r} {t}"
+      let sp := alts ((applyAlts p).map (fun (r, t) =>
+        s!"before={defaultShort} mid={if two then defaultShort else r} after={r} {t}"))
       m ++ " ## " ++ sp
     | _, _, _ => "bad-op"
+  | "set" :: "applyq" :: role :: h :: cut :: pre :: rest =>
+    match parseHex h, cut.toNat?, (pre.splitOn ",").mapM parseHex, localCfg role rest with
+    | some p, some cut, some pres, some cfg =>
+      if role != "server" && role != "client" then "bad-op"
+      else if pres.isEmpty || pres.length > 8 then "bad-op" else
+      let ccfg : H3.Control.Cfg := { role := if role == "server" then .server else .client, wt := cfg.settings.wt }
+      match preStreams ccfg {} pres with
+      | none => "bad-op"
+      | some front =>
+      if !builds cfg then "setup-failed ## setup-failed" else
+      let total := 1 + (settingsFrame p).length
+      let two := 0 < cut && cut < total
+      -- the streams as `poll_accept_recv` finds them: the ones in front, then the control stream
+      let ws : List Waiting := front ++ [.control p]
+      let (c, code) := receiveScan Cell.new ws
+      let after := recShort c.get
+      let failedFront := match scan front with
+        | .failed _ => true
+        | _ => false
+      let mid := if two && !failedFront then recShort Cell.new.get else after
+      let m := s!"before={recShort Cell.new.get} mid={mid} after={after} {tailStr code}"
+      let sp :=
+        if secondQpack pres then s!"before={defaultShort} mid=* after=* closed H3_STREAM_CREATION_ERROR"
+        else alts ((applyAlts p).map (fun (r, t) =>
+          s!"before={defaultShort} mid={if two then defaultShort else r} after={r} {t}"))
+      m ++ " ## " ++ sp
+    | _, _, _, _ => "bad-op"
   | "set" :: "cfgw" :: role :: pat :: rest =>
     match parseCfg rest {}, parsePattern pat with
     | some l, some pat => cfgwCase role pat l
     | _, _ => "bad-op"
-  | ["set", "apply2", role, h1, h2] =>
-    match parseHex h1, parseHex h2 with
-    | some p1, some p2 =>
-      if role != "server" && role != "client" then "bad-op" else
-      let (c1, code1) := receive Cell.new p1
+  | "set" :: "apply2" :: role :: h1 :: h2 :: rest =>
+    match parseHex h1, parseHex h2, localCfg role rest with
+    | some p1, some p2, some cfg =>
+      if role != "server" && role != "client" then "bad-op"
+      else if !builds cfg then "setup-failed ## setup-failed" else
+      let (k1, code1) := Conn.receive ⟨cfg, Cell.new⟩ p1
+      let c1 := k1.cell
       let r1 := recShort c1.get
       -- a second SETTINGS frame: decoded first (its own errors win), then H3_FRAME_UNEXPECTED;
       -- after a connection error nothing more is read
@@ -381,11 +491,13 @@ def handle : List String → String
         | some _ => c1
         | none => (receive c1 p2).1
       let m := s!"before={recShort Cell.new.get} after1={r1} {tailStr code1} after2={recShort c2.get} {tailStr code2}"
-      let sp := match applySpec? p1 with
-        | some (r, "open") => s!"before={defaultShort} after1={r} open after2={r} closed *"
-        | _ => "?"
+      -- the first frame as for `set apply`; the settings never change afterwards (write-once) and a second SETTINGS
+      -- frame closes the connection (which code: RFC 9114 §7.2.4 / C04; its own payload error is as good)
+      let sp := alts ((applyAlts p1).map (fun (r, t) =>
+        if t == "open" then s!"before={defaultShort} after1={r} open after2={r} closed *"
+        else s!"before={defaultShort} after1={r} {t} after2={r} {t}"))
       m ++ " ## " ++ sp
-    | _, _ => "bad-op"
+    | _, _, _ => "bad-op"
   | _ => "bad-op"
 
 end H3.Drv.C13
